@@ -887,53 +887,53 @@ inverse!(JoinPat, input, asm, {
         input = &input[join_index + 1..];
         node
     } else {
-        fn contains_join(nodes: &[Node]) -> bool {
-            nodes.iter().any(|node| match node.inner() {
-                Prim(Join, _) => true,
-                Mod(Dip, args, _) => args.iter().any(|arg| contains_join(arg.node.as_slice())),
-                _ => false,
-            })
-        }
-        fn invert_inner(mut input: &[Node], asm: &Assembly) -> InversionResult<Node> {
+        /// Invert what is run before the join
+        ///
+        /// Also get the number of values that make up the first joined value
+        fn invert_inner(mut input: &[Node], asm: &Assembly) -> InversionResult<(Node, usize)> {
             let mut node = Node::empty();
+            let mut count = 1;
             while !input.is_empty() {
                 if let [Mod(Dip, args, dip_span), inp @ ..] = input {
                     let [inner] = args.as_slice() else {
                         return generic();
                     };
-                    let inner_inv = invert_inner(inner.node.as_slice(), asm)?;
-                    // A dipped function that is not a link in the chain of joins
-                    // was applied beneath the first joined value, and so must its inverse be
-                    match inner_inv.sig() {
-                        Ok(sig)
-                            if sig.args() == sig.outputs()
-                                && !contains_join(inner.node.as_slice()) =>
-                        {
-                            node.push(Mod(Dip, eco_vec![inner_inv.sig_node()?], *dip_span));
+                    // A dipped function was applied beneath the first joined value,
+                    // and so must its inverse be
+                    let inner_inv = match inner.node.as_slice() {
+                        // A link in a chain of joins gives a list back
+                        [Prim(Join, span)] => {
+                            Node::from_iter([Push(1.into()), ImplPrim(UnJoinShape, *span)])
                         }
-                        _ => node.extend(inner_inv),
-                    }
+                        inner => un_inverse(inner, asm)?,
+                    };
+                    node.push(Mod(Dip, eco_vec![inner_inv.sig_node()?], *dip_span));
                     input = inp;
                     continue;
                 }
-                if let Some((i, _)) = input.iter().enumerate().skip(1).find(|(i, node)| {
-                    nodes_clean_sig(&input[..*i]).is_some() && matches!(node.inner(), Mod(Dip, ..))
-                }) {
-                    node.extend(un_inverse(&input[..i], asm)?);
-                    input = &input[i..];
+                if let [ImplMod(DipN(_), ..), inp @ ..] = input {
+                    node.extend(un_inverse(&input[..1], asm)?);
+                    input = inp;
                     continue;
                 }
-                node.extend(un_inverse(input, asm)?);
-                break;
+                let i = (input.iter().enumerate().skip(1))
+                    .find(|(i, node)| {
+                        nodes_clean_sig(&input[..*i]).is_some()
+                            && matches!(node.inner(), Mod(Dip, ..) | ImplMod(DipN(_), ..))
+                    })
+                    .map_or(input.len(), |(i, _)| i);
+                let inv = un_inverse(&input[..i], asm)?;
+                let sig = nodes_clean_sig(&inv).ok_or(Generic)?;
+                count += sig.outputs().saturating_sub(sig.args());
+                node.extend(inv);
+                input = &input[i..];
             }
-            Ok(node)
+            Ok((node, count))
         }
         let before = &input[..join_index];
         input = &input[join_index + 1..];
-        let before_inv = invert_inner(before, asm)?;
-        let before_sig = nodes_clean_sig(&before_inv).ok_or(Generic)?;
+        let (before_inv, count) = invert_inner(before, asm)?;
         let mut node = Node::empty();
-        let count = before_sig.outputs().saturating_sub(before_sig.args()) + 1;
         let prim = if count <= 1 {
             UnJoin
         } else {
